@@ -323,17 +323,19 @@ func (d *c20) finalizeBlock(fault int) {
 		d.viol("db", "db/process-events-failed", "round %d: %v", b.Round, err)
 		// the block's events were rolled back; nothing of it may be visible
 	}
+	d.dbOracle(burns, merged, err == nil)
 	if fault == 2 {
+		// which ticket the shipped handler stores depends on the iteration order of a Go map
+		// (withUniqueEventOverwrite), so the outcome of a second delivery is not logged: only
+		// invariants that hold for every order are checked afterwards
 		d.tr.Fault("duplicate_block_events")
-		err2 := d.deliver(dbEvs, b.Round, b.Hash, ntx, false)
-		d.tr.Event("redeliver round=%d ok=%v", b.Round, err2 == nil)
-		if err2 != nil {
+		if err2 := d.deliver(dbEvs, b.Round, b.Hash, ntx, false); err2 != nil {
 			d.tr.Probe("duplicate_delivery_rejected")
 		} else {
 			d.tr.Probe("duplicate_delivery_accepted")
 		}
+		d.dbOracle(burns, merged, false)
 	}
-	d.dbOracle(burns, merged, err == nil)
 }
 
 func keysOf[V any](m map[string]V) []string {
@@ -448,6 +450,45 @@ func (d *c20) dbOracle(burns []burnRec, merged *evSummary, delivered bool) {
 		}
 	}
 	d.rows = rows
+}
+
+// historyOracle: over the whole run, the table holds exactly one row per successful burn.
+func (d *c20) historyOracle() {
+	rows, n, err := d.readRows()
+	if err != nil {
+		d.viol("db", "db/read-error", "%v", err)
+		return
+	}
+	by := map[string]burnRec{}
+	for _, br := range d.allBurns {
+		by[br.hash] = br
+	}
+	if n != len(rows) {
+		d.viol("db", "db/burn-ticket-duplicated", "%d rows for %d distinct burn transactions", n, len(rows))
+	}
+	for _, h := range keysOf(rows) {
+		br, ok := by[h]
+		t := rows[h]
+		if !ok {
+			d.viol("db", "db/unexpected-burn-ticket-row", "row %+v does not belong to a burn of this run", t)
+		} else if t.EthereumAddress != br.addr || t.Amount != br.amount || t.Nonce != br.nonce {
+			d.viol("db", "db/burn-ticket-fields", "burn %s (address %s amount %d nonce %d) recorded as %s/%d/%d", short(h), br.addr, br.amount, br.nonce, t.EthereumAddress, t.Amount, t.Nonce)
+		}
+	}
+	missing := 0
+	for h := range by {
+		if _, ok := rows[h]; !ok {
+			missing++
+		}
+	}
+	d.tr.Event("history burns=%d", len(by))
+	if missing > 0 {
+		d.tr.Probe("history_burns_without_ticket")
+		if !d.tr.Failed() {
+			// safety net: every loss must already have been attributed to the merge or to the handler
+			d.viol("db", "history/burn-without-ticket", "%d of %d burns have no burn_tickets row and no block-level oracle reported it", missing, len(by))
+		}
+	}
 }
 
 // ---- transactions ---------------------------------------------------------------------------------------
@@ -624,6 +665,7 @@ func execC20(env *sim.Env, p *sim.Plan) *sim.Result {
 	}
 	if !d.dead && (!tr.Failed() || knownOnly(tr)) {
 		d.finalizeBlock(0)
+		d.historyOracle()
 	}
 	return tr.Result(p.Seed)
 }
@@ -678,7 +720,7 @@ func init() {
 	sim.Register(&sim.Check{
 		ID: "C20", Title: "The query database records every finalized bridge and pool event", World: "ledger",
 		Gen: genC20, Exec: execC20,
-		Quick: sim.Budget{Runs: 480, WallS: 60}, Thorough: sim.Budget{Runs: 40000, WallS: 1100},
+		Quick: sim.Budget{Runs: 320, WallS: 60}, Thorough: sim.Budget{Runs: 8000, WallS: 1100},
 		LevelText: "seeded search over blocks whose event lists come from real zcnsc burn / mint transactions (authorizers registered by real add-authorizer transactions, mint payloads signed by their seeded keys, nonce replays) and storagesc read_pool_lock / read_pool_unlock transactions, " +
 			"several per block for the same client and the same Ethereum address; each sealed block's event list goes through the shipped EventDb.MergeEvents (handlers' input compared with what the contracts emitted: every burn ticket and mint present, per-burner / per-authorizer / per-client sums preserved, last pool balance kept) " +
 			"and through the shipped EventDb.ProcessEvents + Commit into the repository's in-memory sqlite store (one burn_tickets row per burn with address, amount, nonce; no other row changes); faults: commit error then retry, duplicate delivery of a block's events",
